@@ -171,6 +171,49 @@ func main() {
 		_ = os.RemoveAll(wd)
 	}
 
+	// ------------------------------------------------------------------ (A2) indirect CRL
+	// A CRL that declares itself indirect (critical issuingDistributionPoint with indirectCRL) and
+	// whose entries name another certificate issuer must never revoke certificates of the CRL
+	// issuer itself: either it is rejected (unimplemented critical extension) or interpreted fully.
+	for _, backend := range []string{"memory", "disk"} {
+		if !mine() {
+			continue
+		}
+		otherCA := der.Name([]der.ATV{{cn, der.TagUTF8String, "Some other CA"}})
+		certIssuer := der.Ext("2.5.29.29", true, der.Seq(der.TLV(0xa4, otherCA)))
+		var es []crlgen.Entry
+		for i := 0; i < 6; i++ {
+			e := crlgen.Entry{Serial: gen.SerialOfWidth(rng, 6, false), Date: gen.BaseTime}
+			if i%2 == 0 {
+				e.Exts = [][]byte{certIssuer}
+			}
+			es = append(es, e)
+		}
+		sp := gen.SpecFor(w.Int, es)
+		sp.Exts = append(sp.Exts, der.Ext("2.5.29.28", true, der.Seq(der.ImplicitPrim(4, []byte{0xff}))))
+		path := "/indirect-" + backend + ".crl"
+		w.CRL.Set(path, origin.Good(sp.Build(w.Int.Key).DER))
+		wd := filepath.Join(scratch, "wd-indirect-"+backend)
+		_ = os.MkdirAll(wd, 0755)
+		chk, err := l2.Start(l2.Opts{WorkDir: wd, Storage: backend, SigMode: "verify", Fetch: "actively"})
+		if err != nil {
+			run.Violation("indirect.provision-failed", err.Error(), nil)
+			continue
+		}
+		for i, e := range es {
+			rev, err := chk.Ask(w.Leaf(e.Serial, []string{w.CRL.URL(path)}, nil))
+			run.Eval(1)
+			desc := fmt.Sprintf("indirect-crl backend=%s entry=%d names-other-issuer=%v", backend, i, i%2 == 0)
+			if i%2 == 0 && (rev || err != nil) {
+				run.Violation("indirect-crl.entry-of-other-issuer-revokes-crl-issuers-certificate."+backend, desc+": a certificate of the CRL issuer is reported revoked by an entry that names another certificate issuer", &report.Replay{Case: desc})
+				continue
+			}
+			run.NonTrivial(desc)
+		}
+		chk.Stop()
+		_ = os.RemoveAll(wd)
+	}
+
 	// ------------------------------------------------------------------ (B) histories
 	letters := []string{"rej-badsig", "rej-parse", "rej-critical", "acc-A", "acc-B", "restart"}
 	maxLen := 3
